@@ -65,7 +65,14 @@ pub struct BatchSpec {
     pub permute: u64,
 }
 
-fn pool_member() -> impl Strategy<Value = PoolMember> {
+pub fn pool_member_valid() -> impl Strategy<Value = PoolMember> {
+    pool_member().prop_map(|mut m| {
+        m.invalid = None;
+        m
+    })
+}
+
+pub fn pool_member() -> impl Strategy<Value = PoolMember> {
     (
         0u8..=3,
         0u8..=2,
